@@ -474,6 +474,64 @@ impl Subject for SFobN {
     relocate!();
 }
 
+/// zero-sized futures with a destructor
+pub struct SFubZ(pub FuturesUnorderedBounded<ZFut>);
+impl Subject for SFubZ {
+    fn poll(&mut self, cx: &mut Context<'_>) -> PollOut {
+        map_item(in_crate(|| Pin::new(&mut self.0).poll_next(cx)))
+    }
+    fn push(&mut self, id: u32, _how: PushHow, _panicking: bool) -> PushRes {
+        let f = ZFut::new(id);
+        match in_crate(|| self.0.try_push(f)) {
+            Ok(()) => PushRes::Accepted,
+            Err(f) => {
+                let back = ZFut::unbind_latest();
+                drop(f);
+                PushRes::Refused(back)
+            }
+        }
+    }
+    fn obs(&self) -> Obs {
+        in_crate(|| Obs {
+            len: Some(self.0.len()),
+            is_empty: Some(self.0.is_empty()),
+            capacity: Some(self.0.capacity()),
+            size_hint: Some(self.0.size_hint()),
+            is_terminated: Some(self.0.is_terminated()),
+        })
+    }
+    relocate!();
+}
+pub struct SJaZ(pub JoinAll<ZFut>);
+impl Subject for SJaZ {
+    fn poll(&mut self, cx: &mut Context<'_>) -> PollOut {
+        use std::future::Future;
+        match in_crate(|| Pin::new(&mut self.0).poll(cx)) {
+            Poll::Pending => PollOut::Pending,
+            Poll::Ready(v) => PollOut::Vec(v),
+        }
+    }
+    fn obs(&self) -> Obs {
+        Obs::default()
+    }
+    relocate!();
+}
+pub struct SFuZ(pub FuturesUnordered<ZFut>);
+impl Subject for SFuZ {
+    fn poll(&mut self, cx: &mut Context<'_>) -> PollOut {
+        map_item(in_crate(|| Pin::new(&mut self.0).poll_next(cx)))
+    }
+    fn push(&mut self, id: u32, _how: PushHow, _panicking: bool) -> PushRes {
+        let f = ZFut::new(id);
+        in_crate(|| self.0.push(f));
+        PushRes::Accepted
+    }
+    fn obs(&self) -> Obs {
+        in_crate(|| Obs { len: Some(self.0.len()), is_empty: Some(self.0.is_empty()), size_hint: Some(self.0.size_hint()), is_terminated: Some(self.0.is_terminated()), ..Obs::default() })
+    }
+    relocate!();
+}
+
 // ---------------------------------------------------------------- construction
 
 #[derive(Clone, Copy, PartialEq, Eq, Debug, Hash)]
@@ -497,6 +555,8 @@ pub enum Kind {
     Mb(usize),
     /// MergeUnbounded::new(), then prefill k sources
     Mu(usize),
+    /// MergeUnbounded::from_iter of k sources
+    MuIter(usize),
     Bu(usize),
     Bo(usize),
     Tbu(usize),
@@ -511,6 +571,10 @@ pub enum Kind {
     JaN(usize),
     TjaN(usize),
     FobN(usize),
+    /// zero-sized futures with a destructor
+    FubZ(usize),
+    FuZ(usize),
+    JaZ(usize),
 }
 
 impl Kind {
@@ -534,16 +598,18 @@ impl Kind {
                 | Kind::FoCap(_)
                 | Kind::FoIter(_)
                 | Kind::FobN(_)
+                | Kind::FubZ(_)
+                | Kind::FuZ(_)
         )
     }
     pub fn is_merge(self) -> bool {
-        matches!(self, Kind::Mb(_) | Kind::Mu(_))
+        matches!(self, Kind::Mb(_) | Kind::Mu(_) | Kind::MuIter(_))
     }
     pub fn is_adapter(self) -> bool {
         matches!(self, Kind::Bu(_) | Kind::Bo(_) | Kind::Tbu(_) | Kind::Tbo(_) | Kind::Fec(_))
     }
     pub fn is_join(self) -> bool {
-        matches!(self, Kind::Ja(_) | Kind::Tja(_) | Kind::JaP(_) | Kind::TjaP(_) | Kind::JaN(_) | Kind::TjaN(_))
+        matches!(self, Kind::Ja(_) | Kind::Tja(_) | Kind::JaP(_) | Kind::TjaP(_) | Kind::JaN(_) | Kind::TjaN(_) | Kind::JaZ(_))
     }
     pub fn is_try(self) -> bool {
         matches!(self, Kind::Tbu(_) | Kind::Tbo(_) | Kind::Tja(_) | Kind::TjaP(_) | Kind::TjaN(_))
@@ -551,7 +617,7 @@ impl Kind {
     /// capacity of the bounded types (None = unbounded or not applicable)
     pub fn bound(self) -> Option<usize> {
         match self {
-            Kind::Fub(n) | Kind::FubIter(n) | Kind::Fob(n) | Kind::FobIter(n) | Kind::Mb(n) | Kind::FobN(n) => Some(n),
+            Kind::Fub(n) | Kind::FubIter(n) | Kind::Fob(n) | Kind::FobIter(n) | Kind::Mb(n) | Kind::FobN(n) | Kind::FubZ(n) => Some(n),
             _ => None,
         }
     }
@@ -603,6 +669,10 @@ pub fn build(kind: Kind, prefill: &[u32]) -> Option<Box<dyn Subject>> {
                 }
                 Box::new(SMu(m))
             }
+            Kind::MuIter(_) => {
+                let it: Vec<Pin<Box<ScriptStream>>> = prefill.iter().map(|&i| Box::pin(ScriptStream::new(i))).collect();
+                Box::new(SMu(in_crate(|| it.into_iter().collect())))
+            }
             Kind::Bu(n) => Box::new(SBu(in_crate(|| Upstream::<F>::new().buffered_unordered(n)))),
             Kind::Bo(n) => Box::new(SBo(in_crate(|| Upstream::<F>::new().buffered_ordered(n)))),
             Kind::Tbu(n) => {
@@ -619,6 +689,12 @@ pub fn build(kind: Kind, prefill: &[u32]) -> Option<Box<dyn Subject>> {
             Kind::Tja(_) => {
                 let it: Vec<TF> = prefill.iter().map(|&i| TF::new(i)).collect();
                 Box::new(STja(in_crate(|| try_join_all(it))))
+            }
+            Kind::FubZ(n) => Box::new(SFubZ(in_crate(|| FuturesUnorderedBounded::new(n)))),
+            Kind::FuZ(n) => Box::new(SFuZ(in_crate(|| FuturesUnordered::with_capacity(n)))),
+            Kind::JaZ(_) => {
+                let it: Vec<ZFut> = prefill.iter().map(|&i| ZFut::new(i)).collect();
+                Box::new(SJaZ(in_crate(|| join_all(it))))
             }
             Kind::JaN(_) => {
                 let it: Vec<NF> = prefill.iter().map(|&i| NF::new(i)).collect();
